@@ -13,6 +13,7 @@ Decided (shape engine + structural rules)
       channel list, the unwhiten flag forwarded
   A4  _load_data: merged clusters iff assignments differ and storage is dense; n_clusters = max + 1 of the respective id vector;
       identical assignments reuse the template waveforms
+  +   the averaging weights count the spikes of a RESTRICTION of the spike table (the cluster), not all spikes (histograms carry what they count)
 Not decided: weighted-mean values; which template wins when the top spike counts are exactly tied (the statement does not define it).
 """
 import ast
@@ -287,6 +288,12 @@ def run(ctx):
                       '%s: mean waveform has dimension %s, expected %s (the unwhiten flag must reach every template)' % (lab, w.elem, want), value=getattr(w, 'elem', w))
             ctx.check(isinstance(w.elem, Q) and any(t.startswith('wmean:') for t in w.elem.tags), 'C08.A3', mw, lab + ' weighting', '%s: the templates are combined by a WEIGHTED mean' % lab,
                       '%s: the templates are not combined by a weighted mean (%s)' % (lab, sorted(w.elem.tags) if isinstance(w.elem, Q) else w.elem), value=getattr(w, 'elem', w))
+            # the weights are the counts of THIS cluster's spikes per template: a histogram of a restriction of the spike table, not of the whole table
+            wc = sorted(t[len('wcountof:'):] for t in w.elem.tags if t.startswith('wcountof:')) if isinstance(w.elem, Q) else []
+            ctx.tri(bool(wc) and all(x != str(Spike) for x in wc), bool(wc) and any(x == str(Spike) for x in wc), 'C08.A3', mw, lab + ' weights',
+                    '%s: the weights count the spikes of a restriction of the spike table (%s), i.e. of the cluster' % (lab, ', '.join(wc)),
+                    '%s: the weights are a histogram over ALL spikes (template totals), not over the spikes of the cluster: after a split the mean and the dominant template are wrong' % lab,
+                    '%s: what the averaging weights count was not determined' % lab)
             ctx.check(isinstance(ch.elem, Ix) and ch.elem.space is Chan, 'C08.A3', mw, lab + ' channels', '%s: channel_ids are channel indices' % lab, '%s: channel_ids hold %s' % (lab, ch.elem), value=getattr(ch, 'elem', ch))
         else:
             ctx.undecided('C08.A3', mw, '%s: result %s' % (lab, res))
